@@ -247,5 +247,9 @@ func (x *Exec) race(addr uintptr, a access, ak string, b access, bk string) {
 	}
 	x.raceSeen[sig] = true
 	x.races = append(x.races, RaceInfo{Addr: addr, A: ak + " " + pcSite(a.pc) + fmt.Sprintf(" [thread %d]", a.tid),
-		B: bk + " " + pcSite(b.pc) + fmt.Sprintf(" [thread %d]", b.tid), Signature: sig})
+		B: bk + " " + pcSite(b.pc) + fmt.Sprintf(" [thread %d]", b.tid), Signature: sig, Lib: !harnessFn(fa) && !harnessFn(fb)})
+}
+
+func harnessFn(fn string) bool {
+	return strings.HasPrefix(fn, "main.") || strings.HasPrefix(fn, "verif/")
 }
